@@ -434,7 +434,7 @@ def _footprint_body(g, rx, ry, buffer, npoints):
 
 lemma(
     "geobox.footprint_buffer",
-    ["C11"],
+    ["C11", "C12"],
     inputs=dict(g=GEOBOX("EPSG:3857"), rx=OneOf(Real(gt=0), Real(lt=0)), ry=OneOf(Real(gt=0), Real(lt=0)), buffer=OneOf(0, Real(gt=0)), npoints=Int(ge=1)),
     body=_footprint_body,
     note="data flow of the real GeoBoxBase.footprint over a ghost extent; the geometry of buffering / densifying / projecting is shapely's and pyproj's (assumed; bounded end-to-end check)",
